@@ -62,7 +62,7 @@ CHECKS = {
         text="Bounded liveness under simulated leaf timing: every productive alternative of a disjunction tree is first run "
              "alone to measure the quanta T for its first <=3 answers; in the full disjunction (next to infinite producers and "
              "silent divergers) the same answers must appear within K*2^m*(T+8)+2048 scheduler quanta of the step clock hook. "
-             "A starved branch never appears whatever the bound; the measured worst case uses <4% of the bound on the unchanged tree. A wide family (flat conde of 9-11 clauses, all but the last infinite) reaches branches that sit deep in the merge tree, and loops stay inside an alternative's own program, so answers of later rounds are required too.",
+             "A starved branch never appears whatever the bound; the measured worst case (cases whose bound is not capped) uses about 15% of the bound on the unchanged tree. A wide family (flat conde of 9-11 clauses, all but the last infinite) reaches branches that sit deep in the merge tree, and loops stay inside an alternative's own program, so answers of later rounds are required too.",
         design="7 (C07), 1 (N2, N5)",
         technique="deterministic simulation: step-clock budget, scripted producers/divergers, progress-within-N-quanta oracle",
     ),
